@@ -327,34 +327,64 @@ struct TrigEnv {
 static TrigEnv* TE;
 
 struct Params { int mr, mw, so; };
-struct Sim {                      // the simulator's view: action configuration + action state + clock + the run list it recorded
-    Params p; Action::Actions actions; Action::State state; std::time_t t = T0; std::vector<std::time_t> runs;
-    explicit Sim(Params pp) : p(pp) {
+// REDEFINITION events: the same ACTIONX name defined again at the current time (Actions::add gives it a new
+// definition id); start time = time of the redefinition + so days (the schedule passes the report step's start
+// time); different limits and a different (equivalent) condition text per variant.
+static const int NREDEF = 3, MAXREDEF = 2;
+static const Params RP[NREDEF] = {{2, 1, 0}, {3, 2, 1}, {1, 0, 0}};
+static const std::vector<std::string> RCOND[NREDEF] = {{"FOPR", ">=", "1"}, {"FOPR", ">", "0.5"}, {"FOPR", ".GT.", "0"}};
+struct Sim {                      // the simulator's view: action configuration + action state + clock + what it recorded itself
+    Params p0, p;                 // initial / current definition's limits
+    Action::Actions actions; Action::State state; std::time_t t = T0;
+    std::time_t base = T0;        // time at which the current definition was made
+    int nd = 0;                   // number of redefinitions so far = expected definition index
+    std::vector<std::time_t> runs;// runs of the CURRENT definition (the reference keeps count / last run per definition)
+    std::time_t old_last = -1;    // last run of the oldest earlier definition that ever ran (history/ghost value, -1: none)
+    explicit Sim(Params pp) : p0(pp), p(pp) {
         actions.add(Action::ActionX("A", (std::size_t)p.mr, double(p.mw) * DAY, T0 + p.so * DAY, std::vector<Action::Condition>{}, {"FOPR", ">", "0"}));
         // decoy that must never be pending within the horizon (start far in the future, same condition)
         actions.add(Action::ActionX("Z", 5, 0.0, T0 + 1000 * DAY, std::vector<Action::Condition>{}, {"FOPR", ">", "0"}));
     }
 };
-struct Abs { int rc, dl, el, gap; };
+struct Abs { int rc, dl, el, gap, od; };
 static Abs abstraction(const Sim& s) {
     Abs a;
     const Action::ActionX& A = s.actions["A"];
     a.rc = (int)s.state.run_count(A);                                                   // from the implementation state
     a.dl = a.rc == 0 ? -1 : (int)std::min<long>(3, (long)((s.t - s.state.run_time(A)) / DAY));
-    a.el = (int)std::min<long>(2, (long)((s.t - T0) / DAY));
+    a.el = (int)std::min<long>(2, (long)((s.t - s.base) / DAY));
     a.gap = s.runs.size() < 2 ? -1 : (int)std::min<long>(3, (long)((s.runs.back() - s.runs[s.runs.size() - 2]) / DAY));
+    a.od = s.old_last < 0 ? -1 : (int)std::min<long>(3, (long)((s.t - s.old_last) / DAY));
     return a;
 }
-static std::string absstr(const Params& p, const Abs& a) { char b[96]; std::snprintf(b, sizeof b, "%d %d %d %d %d %d %d", p.mr, p.mw, p.so, a.rc, a.dl, a.el, a.gap); return b; }
+static std::string absstr(const Sim& s) { const Abs a = abstraction(s); char b[128]; std::snprintf(b, sizeof b, "%d %d %d %d %d %d %d %d %d", s.p.mr, s.p.mw, s.p.so, a.rc, a.dl, a.el, a.gap, s.nd, a.od); return b; }
+
+// a violation that shows for a redefined action only gets its own key (":redefined") unless the same
+// check already failed for a first definition (then it is the same defect)
+static std::string rkey(const Sim& s, const std::string& base) {
+    if (s.nd == 0) return base;
+    for (auto& v : R->violations) if (v.key == base) return base;
+    return base + ":redefined";
+}
+static std::string where_str(const Sim& s, const std::function<std::string()>& cs) {
+    return " (definition #" + std::to_string(s.nd) + ": max_run " + std::to_string(s.p.mr) + ", min_wait " + std::to_string(s.p.mw) + " d, start +" + std::to_string(s.p.so) + " d; case " + cs() + ")";
+}
+// implementation bookkeeping (keyed by name + definition id) agrees with the list recorded for the current definition
+static void check_state(const Sim& s, const std::function<std::string()>& cs) {
+    auto rp = [&]() { return "{\"case\": " + vf::jstr(cs()) + "}"; };
+    const Action::ActionX& A = s.actions["A"];
+    if (s.state.run_count(A) != s.runs.size()) R->violation(rkey(s, "C18:trig:state:run-count"), "State::run_count = " + std::to_string(s.state.run_count(A)) + " after " + std::to_string(s.runs.size()) + " runs of this definition" + where_str(s, cs), rp());
+    else if (!s.runs.empty() && s.state.run_time(A) != s.runs.back()) R->violation(rkey(s, "C18:trig:state:run-time"), "State::run_time is " + std::to_string((long)(s.runs.back() - s.state.run_time(A)) / DAY) + " d before the last run of this definition" + where_str(s, cs), rp());
+}
 
 // one evaluation of the simulator loop; every oracle of part (b) is applied here.  cs: lazily built case string.
 static void sim_step(Sim& s, int dt, bool outcome, const std::function<std::string()>& cs) {
     auto rp = [&]() { return "{\"case\": " + vf::jstr(cs()) + "}"; };
-    auto where = [&]() { return " (max_run " + std::to_string(s.p.mr) + ", min_wait " + std::to_string(s.p.mw) + " d, start +" + std::to_string(s.p.so) + " d; case " + cs() + ")"; };
+    auto where = [&]() { return where_str(s, cs); };
     s.t += dt * DAY;
-    const std::time_t start = T0 + s.p.so * DAY;
+    const std::time_t start = s.base + s.p.so * DAY;
     const Action::ActionX& A = s.actions["A"];
-    // reference predicate on the harness' own run list
+    // reference predicate on the harness' own run list of the current definition
     const bool c_count = (int)s.runs.size() < s.p.mr;
     const bool c_start = s.t >= start;
     const bool c_wait = s.runs.empty() || (s.t - s.runs.back()) >= s.p.mw * DAY;
@@ -363,112 +393,135 @@ static void sim_step(Sim& s, int dt, bool outcome, const std::function<std::stri
     bool impl_ready = false, ran = false;
     const auto pend = s.actions.pending(s.state, s.t);
     for (const auto* a : pend) { if (a->name() == "A") impl_ready = true; else R->violation("C18:trig:pending-wrong-action", "Actions::pending returned action " + a->name() + " whose start time is 1000 days ahead" + where(), rp()); }
-    if (A.ready(s.state, s.t) != impl_ready) R->violation("C18:trig:pending-ne-ready", "Actions::pending and ActionX::ready disagree" + where(), rp());
+    if (A.ready(s.state, s.t) != impl_ready) R->violation(rkey(s, "C18:trig:pending-ne-ready"), "Actions::pending and ActionX::ready disagree" + where(), rp());
     if (impl_ready != ref_ready) {
         const char* k = impl_ready ? (!c_count ? "ready-at-max-count" : !c_start ? "ready-before-start" : "ready-before-min-wait") : "refuses-when-ready";
-        R->violation(std::string("C18:trig:ready:") + k, std::string("ActionX::ready = ") + (impl_ready ? "true" : "false") + " but reference (runs " + std::to_string(s.runs.size()) + ", t-start " + std::to_string((long)(s.t - start) / DAY) + " d, t-last " + (s.runs.empty() ? std::string("-") : std::to_string((long)(s.t - s.runs.back()) / DAY)) + " d) says " + (ref_ready ? "true" : "false") + where(), rp());
+        R->violation(rkey(s, std::string("C18:trig:ready:") + k), std::string("ActionX::ready = ") + (impl_ready ? "true" : "false") + " but reference (runs " + std::to_string(s.runs.size()) + ", t-start " + std::to_string((long)(s.t - start) / DAY) + " d, t-last " + (s.runs.empty() ? std::string("-") : std::to_string((long)(s.t - s.runs.back()) / DAY)) + " d) says " + (ref_ready ? "true" : "false") + where(), rp());
     }
     for (const auto* a : pend) {
         const Action::Result res = a->eval(outcome ? *TE->ctxT : *TE->ctxF);
-        if (res.conditionSatisfied() != outcome) R->violation("C18:trig:eval-outcome", "condition FOPR > 0 evaluated to the wrong truth value" + where(), rp());
+        if (res.conditionSatisfied() != outcome) R->violation(rkey(s, "C18:trig:eval-outcome"), "the action's condition evaluated to the wrong truth value" + where(), rp());
         if (res.conditionSatisfied()) { s.state.add_run(*a, s.t, res); if (a->name() == "A") { s.runs.push_back(s.t); ran = true; } }
     }
     // invariants on the recorded run list (the three limits of the statement), independent of the reference predicate
     if (ran) {
-        if ((int)s.runs.size() > s.p.mr) R->violation("C18:trig:inv:more-runs-than-max", "action ran " + std::to_string(s.runs.size()) + " times" + where(), rp());
-        if (s.runs.size() >= 2 && s.runs.back() - s.runs[s.runs.size() - 2] < s.p.mw * DAY) R->violation("C18:trig:inv:ran-before-min-wait", "action ran " + std::to_string((long)(s.runs.back() - s.runs[s.runs.size() - 2]) / DAY) + " d after its previous run" + where(), rp());
-        if (s.runs.back() < start) R->violation("C18:trig:inv:ran-before-start", "action ran before its start time" + where(), rp());
+        if ((int)s.runs.size() > s.p.mr) R->violation(rkey(s, "C18:trig:inv:more-runs-than-max"), "action ran " + std::to_string(s.runs.size()) + " times" + where(), rp());
+        if (s.runs.size() >= 2 && s.runs.back() - s.runs[s.runs.size() - 2] < s.p.mw * DAY) R->violation(rkey(s, "C18:trig:inv:ran-before-min-wait"), "action ran " + std::to_string((long)(s.runs.back() - s.runs[s.runs.size() - 2]) / DAY) + " d after its previous run" + where(), rp());
+        if (s.runs.back() < start) R->violation(rkey(s, "C18:trig:inv:ran-before-start"), "action ran before its start time" + where(), rp());
     }
     // a ready action whose condition is true does run
-    if (ref_ready && outcome && !ran) R->violation("C18:trig:live:ready-and-true-did-not-run", "action was ready and its condition true but it did not run" + where(), rp());
-    // implementation state agrees with the recorded list
-    if (s.state.run_count(A) != s.runs.size()) R->violation("C18:trig:state:run-count", "State::run_count = " + std::to_string(s.state.run_count(A)) + " after " + std::to_string(s.runs.size()) + " runs" + where(), rp());
-    else if (!s.runs.empty() && s.state.run_time(A) != s.runs.back()) R->violation("C18:trig:state:run-time", "State::run_time is not the time of the last run" + where(), rp());
+    if (ref_ready && outcome && !ran) R->violation(rkey(s, "C18:trig:live:ready-and-true-did-not-run"), "action was ready and its condition true but it did not run" + where(), rp());
+    check_state(s, cs);
 }
 
-static const char* EVNAME[6] = {"0T", "1T", "2T", "0F", "1F", "2F"};
+// REDEFINITION event k: the schedule defines the name again, now (no time passes).  The reference starts the new
+// definition with count 0 and no previous run; the records of earlier definitions stay in Action::State.
+static void sim_redefine(Sim& s, int k, const std::function<std::string()>& cs) {
+    if (s.old_last < 0 && !s.runs.empty()) s.old_last = s.runs.back();
+    s.p = RP[k]; s.base = s.t; s.runs.clear(); ++s.nd;
+    s.actions.add(Action::ActionX("A", (std::size_t)s.p.mr, double(s.p.mw) * DAY, s.base + s.p.so * DAY, std::vector<Action::Condition>{}, RCOND[k]));
+    check_state(s, cs);
+}
+
+// events 0..5: evaluation (dt, outcome); 6..8: redefinition variants
+static const int NEV = 6 + NREDEF;
+static const char* EVNAME[NEV] = {"0T", "1T", "2T", "0F", "1F", "2F", "R1", "R2", "R3"};
+static bool ev_enabled(const Sim& s, int e) { return e < 6 || s.nd < MAXREDEF; }
+static void apply_ev(Sim& s, int e, const std::function<std::string()>& cs) { if (e < 6) sim_step(s, e % 3, e < 3, cs); else sim_redefine(s, e - 6, cs); }
+static int parse_ev(const std::string& tok) { for (int e = 0; e < NEV; ++e) if (tok == EVNAME[e]) return e; return -1; }
+static std::string p0str(const Sim& s) { return std::to_string(s.p0.mr) + " " + std::to_string(s.p0.mw) + " " + std::to_string(s.p0.so); }
 struct Graph { std::unordered_map<std::string, std::string> succ; std::unordered_set<std::string> states; };
 
-static void dfs(const Sim& s, int depth, int maxdepth, std::vector<int>& hist, Graph& g, const Graph& cl, uint64_t& steps, uint64_t& histories) {
-    if (depth == maxdepth) { ++histories; return; }
-    const std::string from = absstr(s.p, abstraction(s));
-    for (int e = 0; e < 6; ++e) {
+// L: bound on the length of a history without redefinition, Lr: of a history that contains one
+static void dfs(const Sim& s, int depth, int L, int Lr, std::vector<int>& hist, Graph& g, const Graph& cl, uint64_t& steps, uint64_t& histories, uint64_t& histories_redef) {
+    if (depth >= (s.nd > 0 ? Lr : L)) { ++(s.nd > 0 ? histories_redef : histories); return; }
+    const std::string from = absstr(s);
+    for (int e = 0; e < NEV; ++e) {
+        if (!ev_enabled(s, e) || (e >= 6 && depth >= Lr)) continue;
         Sim n = s;
         hist.push_back(e);
-        auto cs = [&]() { std::string c = "trig " + std::to_string(s.p.mr) + " " + std::to_string(s.p.mw) + " " + std::to_string(s.p.so) + " |"; for (int x : hist) { c += ' '; c += EVNAME[x]; } return c; };
+        auto cs = [&]() { std::string c = "trig " + p0str(s) + " |"; for (int x : hist) { c += ' '; c += EVNAME[x]; } return c; };
         if ((steps & 0xfff) == 0) R->current(cs());
-        sim_step(n, e % 3, e < 3, cs);
+        apply_ev(n, e, cs);
         ++steps;
-        const std::string to = absstr(n.p, abstraction(n));
+        const std::string to = absstr(n);
         g.states.insert(to);
         g.succ.emplace(from + " | " + EVNAME[e], to);
         auto it = cl.succ.find(from + " | " + EVNAME[e]);
-        if (it == cl.succ.end() || it->second != to)       // the abstract key must determine the future (else the dedup key is wrong or the implementation depends on something else)
-            R->violation("C18:trig:abstract-key-not-deterministic", "abstract state [" + from + "] + " + EVNAME[e] + " led to [" + (it == cl.succ.end() ? std::string("(not in the closed graph)") : it->second) + "] and to [" + to + "]", "{\"case\": " + vf::jstr(cs()) + "}");
-        dfs(n, depth + 1, maxdepth, hist, g, cl, steps, histories);
+        if (it == cl.succ.end() || it->second != to)       // the abstract key must determine the future (else the dedup key is wrong or the implementation depends on something else, e.g. records of earlier definitions)
+            R->violation(rkey(n, "C18:trig:abstract-key-not-deterministic"), "abstract state [" + from + "] + " + EVNAME[e] + " led to [" + (it == cl.succ.end() ? std::string("(not in the closed graph)") : it->second) + "] and to [" + to + "]", "{\"case\": " + vf::jstr(cs()) + "}");
+        dfs(n, depth + 1, L, Lr, hist, g, cl, steps, histories, histories_redef);
         hist.pop_back();
     }
 }
 
 static void part_b() {
-    const int L = R->thorough() ? 8 : 6;
-    uint64_t steps = 0, histories = 0;
+    const int L = R->thorough() ? 8 : 6, Lr = R->thorough() ? 7 : 6;
+    uint64_t steps = 0, cl_steps = 0, histories = 0, histories_redef = 0;
+    // closure of the abstract graph without depth bound, from all 32 initial definitions (BFS with the abstract key as
+    // dedup key, one concrete representative per state = a shortest history that reaches it, so a defect is first
+    // reported on a shortest case); every transition runs the real code + oracles.  Redefinition merges the graphs of
+    // the initial parameter sets, so the closure is computed by every shard (cheap) and reported by shard 0.
+    Graph cl; std::deque<std::pair<Sim, std::string>> fr;
+    for (int mr = 0; mr <= 3; ++mr) for (int mw = 0; mw <= 3; ++mw) for (int so : {0, 2}) { Sim s0(Params{mr, mw, so}); cl.states.insert(absstr(s0)); fr.push_back({s0, ""}); }
+    while (!fr.empty()) {
+        auto [cur, path] = fr.front(); fr.pop_front();
+        const std::string from = absstr(cur);
+        for (int e = 0; e < NEV; ++e) {
+            if (!ev_enabled(cur, e)) continue;
+            Sim n = cur; const std::string p2 = path + " " + EVNAME[e];
+            auto cs = [&]() { return "trig " + p0str(cur) + " |" + p2; };
+            apply_ev(n, e, cs); ++cl_steps;
+            const std::string to = absstr(n);
+            auto ins = cl.succ.emplace(from + " | " + EVNAME[e], to);
+            if (!ins.second && ins.first->second != to) R->violation(rkey(n, "C18:trig:abstract-key-not-deterministic"), "abstract state [" + from + "] + " + EVNAME[e] + " led to [" + ins.first->second + "] and to [" + to + "]", "{\"case\": " + vf::jstr(cs()) + "}");
+            if (cl.states.insert(to).second) fr.push_back({n, p2});
+        }
+    }
+    if (R->shard == 0) {
+        R->states += cl.states.size(); R->transitions += cl.succ.size(); steps += cl_steps;
+        long long s0 = 0, t0 = 0;
+        for (auto& st : cl.states) { int v[9]; std::sscanf(st.c_str(), "%d %d %d %d %d %d %d %d %d", v, v + 1, v + 2, v + 3, v + 4, v + 5, v + 6, v + 7, v + 8); if (v[7] == 0) ++s0; }
+        for (auto& [k, v] : cl.succ) { R->observe(vf::fnv(k + " -> " + v)); if (k.find(" | R") != std::string::npos) ++t0; }
+        R->count("trig_closed_graph_states_first_definition", s0); R->count("trig_closed_graph_redefinition_transitions", t0);
+        R->count("trig_frontier_left", 0);
+        R->sample_str("trig closed abstract graph (mr mw so rc dl el gap id od): " + std::to_string(cl.states.size()) + " states (" + std::to_string(s0) + " before any redefinition), " + std::to_string(cl.succ.size()) + " transitions (" + std::to_string(t0) + " redefinitions)");
+    }
+    Graph g;
     for (int mr = 0; mr <= 3; ++mr) for (int mw = 0; mw <= 3; ++mw) for (int so : {0, 2}) {
         if (!R->mine()) continue;
         if (R->timed_out()) return;
-        // closure of the abstract graph without depth bound (BFS with the abstract key as dedup key, one concrete
-        // representative per state = a shortest history that reaches it, so a defect is first reported on a shortest case); every transition runs the real code + oracles
-        Graph cl; std::deque<std::pair<Sim, std::string>> fr;
-        { Sim s0(Params{mr, mw, so}); cl.states.insert(absstr(s0.p, abstraction(s0))); fr.push_back({s0, ""}); }
-        while (!fr.empty()) {
-            auto [cur, path] = fr.front(); fr.pop_front();
-            const std::string from = absstr(cur.p, abstraction(cur));
-            for (int e = 0; e < 6; ++e) {
-                Sim n = cur; const std::string p2 = path + " " + EVNAME[e];
-                auto cs = [&]() { return "trig " + std::to_string(mr) + " " + std::to_string(mw) + " " + std::to_string(so) + " |" + p2; };
-                sim_step(n, e % 3, e < 3, cs); ++steps;
-                const std::string to = absstr(n.p, abstraction(n));
-                cl.succ.emplace(from + " | " + EVNAME[e], to);
-                if (cl.states.insert(to).second) fr.push_back({n, p2});
-            }
-        }
-        Graph g; Sim s(Params{mr, mw, so}); std::vector<int> hist;      // every step of every history is compared with the closed graph's successor map
-        g.states.insert(absstr(s.p, abstraction(s)));
-        dfs(s, 0, L, hist, g, cl, steps, histories);
-        for (auto& st : g.states) if (!cl.states.count(st)) R->violation("C18:harness:closure-misses-state", "state [" + st + "] reached by a history is not in the closed abstract graph");
-        R->states += cl.states.size(); R->transitions += cl.succ.size();
-        R->count("trig_states_within_history_bound", (long long)g.states.size()); R->count("trig_transitions_within_history_bound", (long long)g.succ.size());
-        R->count("trig_frontier_left", 0);
-        for (auto& [k, v] : cl.succ) R->observe(vf::fnv(k + " -> " + v));
-        if (R->samples.size() < 5 && mr == 2 && mw == 1) R->sample_str("trig max_run 2 min_wait 1 start +" + std::to_string(so) + ": closed abstract graph (mr mw so rc dl el gap) " + std::to_string(cl.states.size()) + " states, " + std::to_string(cl.succ.size()) + " transitions; " + std::to_string(g.states.size()) + " states within " + std::to_string(L) + " evaluations");
+        Sim s(Params{mr, mw, so}); std::vector<int> hist;      // every step of every history is compared with the closed graph's successor map
+        g.states.insert(absstr(s));
+        dfs(s, 0, L, Lr, hist, g, cl, steps, histories, histories_redef);
     }
+    bool nondet = false; for (auto& v : R->violations) if (v.key.find("abstract-key-not-deterministic") != std::string::npos) nondet = true;
+    if (!nondet) for (auto& st : g.states) if (!cl.states.count(st)) R->violation("C18:harness:closure-misses-state", "state [" + st + "] reached by a history is not in the closed abstract graph");
     R->evaluations += steps;
-    R->count("trig_histories_length_" + std::to_string(L), (long long)histories);
+    R->count("trig_histories_length_" + std::to_string(L) + "_single_definition", (long long)histories);
+    R->count("trig_histories_length_" + std::to_string(Lr) + "_with_1_or_2_redefinitions", (long long)histories_redef);
     R->count("trig_steps_on_real_code", (long long)steps);
 }
 
-static bool parse_ev(const std::string& tok, int& dt, bool& c) {
-    if (tok.size() != 2 || tok[0] < '0' || tok[0] > '2' || (tok[1] != 'T' && tok[1] != 'F')) return false;
-    dt = tok[0] - '0'; c = tok[1] == 'T'; return true;
-}
-
-// one TLC edge: "mr mw so rc dl el gap | 1T | mr mw so rc dl el gap | 0F 2T ..." (source | action | target | BFS-tree path to the source)
+// one TLC edge: "mr mw so rc dl el gap id od | 1T | mr mw so rc dl el gap id od | mr0 mw0 so0 0F R2 2T ..."
+// (source | action | target | initial definition + BFS-tree path to the source)
 static void replay_edge(const std::string& line) {
     std::vector<std::string> sec(1); { std::istringstream ss(line); std::string tok; while (ss >> tok) { if (tok == "|") sec.emplace_back(); else { if (!sec.back().empty()) sec.back() += ' '; sec.back() += tok; } } }
     std::string rp = "{\"case\": " + vf::jstr("edge " + line) + "}";
-    if (sec.size() < 3) { R->violation("C18:tla-edge:bad-line", "cannot parse edge line [" + line + "]", rp); return; }
-    int v[7]; if (std::sscanf(sec[0].c_str(), "%d %d %d %d %d %d %d", v, v + 1, v + 2, v + 3, v + 4, v + 5, v + 6) != 7) { R->violation("C18:tla-edge:bad-line", "cannot parse source state of [" + line + "]", rp); return; }
-    Sim s(Params{v[0], v[1], v[2]});
+    if (sec.size() < 4) { R->violation("C18:tla-edge:bad-line", "cannot parse edge line [" + line + "]", rp); return; }
+    std::istringstream ps(sec[3]); Params p0{};
+    if (!(ps >> p0.mr >> p0.mw >> p0.so)) { R->violation("C18:tla-edge:bad-line", "cannot parse initial definition of [" + line + "]", rp); return; }
+    Sim s(p0);
     auto cs = [&]() { return "edge " + line; };
-    if (sec.size() > 3) { std::istringstream ps(sec[3]); std::string tok; int dt; bool c; while (ps >> tok) { if (!parse_ev(tok, dt, c)) { R->violation("C18:tla-edge:bad-line", "bad path event in [" + line + "]", rp); return; } sim_step(s, dt, c, cs); } }
+    { std::string tok; while (ps >> tok) { int e = parse_ev(tok); if (e < 0 || !ev_enabled(s, e)) { R->violation("C18:tla-edge:bad-line", "bad path event in [" + line + "]", rp); return; } apply_ev(s, e, cs); } }
     R->evaluations++; R->traces_validated++;
-    if (absstr(s.p, abstraction(s)) != sec[0]) { R->violation("C18:tla-edge:path-does-not-reach-source", "replaying the model path [" + (sec.size() > 3 ? sec[3] : "") + "] on the implementation gives [" + absstr(s.p, abstraction(s)) + "], the model says [" + sec[0] + "]", rp); return; }
-    int dt; bool c; if (!parse_ev(sec[1], dt, c)) { R->violation("C18:tla-edge:bad-line", "bad action in [" + line + "]", rp); return; }
+    if (absstr(s) != sec[0]) { R->violation(rkey(s, "C18:tla-edge:path-does-not-reach-source"), "replaying the model path [" + sec[3] + "] on the implementation gives [" + absstr(s) + "], the model says [" + sec[0] + "]", rp); return; }
+    const int e = parse_ev(sec[1]); if (e < 0 || !ev_enabled(s, e)) { R->violation("C18:tla-edge:bad-line", "bad action in [" + line + "]", rp); return; }
     const size_t before = s.runs.size();
-    sim_step(s, dt, c, cs);
-    const std::string got = absstr(s.p, abstraction(s));
+    apply_ev(s, e, cs);
+    const std::string got = absstr(s);
     R->observe(vf::fnv(sec[0] + "|" + sec[1] + "|" + got));
-    if (got != sec[2]) R->violation(std::string("C18:tla-edge:target-differs:") + (s.runs.size() > before ? "impl-ran" : "impl-did-not-run"), "TLC edge [" + sec[0] + "] --" + sec[1] + "--> [" + sec[2] + "]: the implementation reaches [" + got + "]", rp);
+    if (got != sec[2]) R->violation(rkey(s, std::string("C18:tla-edge:target-differs:") + (e >= 6 ? "redefine" : s.runs.size() > before ? "impl-ran" : "impl-did-not-run")), "TLC edge [" + sec[0] + "] --" + sec[1] + "--> [" + sec[2] + "]: the implementation reaches [" + got + "]", rp);
 }
 
 int main(int argc, char** argv) {
@@ -480,17 +533,18 @@ int main(int argc, char** argv) {
 
     const std::string rule_a = std::string("(a) every Boolean tree with <= ") + (run.thorough() ? "5" : "4") + " comparisons over the 13-symbol leaf alphabet {" + [] { std::string s; for (auto& l : LEAVES) { if (!s.empty()) s += ", "; s += join(l.tok); } return s; }() +
         "} and " + (run.thorough() ? "6 comparisons over its first 5 symbols;" : "5 comparisons over its first 6 symbols;") + " internal nodes AND/OR freely labelled (so same-operator nesting is included), rendered with the parentheses that keep the tree plus a fully parenthesised variant, parenthesis nesting <= 3; seam Action::AST(tokens).eval(Context) on a fixed SummaryState (15 JUL 2020, wells I1 P1 P2, group G1, WLIST *L1); oracle: reference evaluator = truth value of the Boolean expression and, when it is true, the sorted matching-well list = intersection under AND / union under OR where scalar and false sub-conditions contribute no set (the set of a false condition is not compared)";
-    const std::string rule_b = std::string("(b) every sequence of ") + (run.thorough() ? "8" : "6") + " evaluations (dt in {0,1,2} d) x (condition T/F) for max_run {0..3} x min_wait {0..3} d x start offset {0,2} d, driven as the simulator does: Actions::pending(state,t) -> ActionX::eval -> State::add_run; oracles on every step: ready() == reference predicate, |runs| <= max_run, consecutive runs >= min_wait apart, no run before start, ready and true => runs, State::run_count/run_time == recorded list; states/transitions = abstract graph (run count, days since last run cap 3, days since t0 cap 2, last gap cap 3) closed by an unbounded BFS on the real code (frontier 0), determinism of the abstract key checked on every step of every history";
+    const std::string rule_b = std::string("(b) histories over the events {evaluation (dt in {0,1,2} d) x (condition T/F)} + {REDEFINITION R1 (max_run 2, min_wait 1 d, start +0), R2 (3, 2 d, +1 d), R3 (1, 0, +0): the same ACTIONX name added again at the current time with other limits and another condition text, at most 2 per history}: every history of ") + (run.thorough() ? "8 evaluations without and every history of length 7 with redefinitions" : "length 6") + ", for the first definition max_run {0..3} x min_wait {0..3} d x start offset {0,2} d (so a redefinition follows 0, 1 .. max_run runs of the earlier definition), driven as the simulator does: Actions::add / Actions::pending(state,t) -> ActionX::eval -> State::add_run; reference keeps run count and last-run time per definition (a redefinition starts with count 0 and no previous run); oracles after every event: ready()/pending() == reference predicate, |runs| <= max_run, consecutive runs >= min_wait apart, no run before start, ready and true => runs, State::run_count/run_time of the current definition == recorded list; states/transitions = abstract graph (limits, run count, days since last run cap 3, days since definition cap 2, last gap cap 3, definition index, ghost: age of the last run of the oldest earlier definition cap 3) closed by an unbounded BFS on the real code from all 32 first definitions (frontier 0), determinism of the abstract key checked on every step of every history";
     run.assumptions = {
         "A1: a well-level comparison over a pattern/list is true iff it holds for at least one well (the statement fixes the set, not this truth value)",
         "matching set compared only when the whole condition is true (for a false condition the statement's 'contributes no set' and the implementation's cleared set coincide; counted in false_condition_with_nonempty_set otherwise)",
         "reference values of the 13 leaves are computed by the harness from its own table of summary values, glob patterns resolved by hand (P* -> P1,P2; * -> I1,P1,P2; *L1 -> P2,I1)",
         "MNTH numeric right-hand sides are integers (the nearest-integer convention for MNTH is not in the statement and not exercised)",
-        "condition outcome in part (b) is produced by really evaluating FOPR > 0 on a summary state with FOPR = +1 / -1",
+        "condition outcome in part (b) is produced by really evaluating the definition's condition (FOPR > 0, FOPR >= 1, FOPR > 0.5, FOPR .GT. 0) on a summary state with FOPR = +1 / -1",
+        "a redefinition is a new action: the three limits are judged per definition (name + definition index), as ActionX::ready/State::run_count/run_time key them; its start time is the time of the redefinition + offset",
         "the triage model of the empty-but-present set only selects the violation key; verdicts come from the reference evaluator alone"};
 
     if (!edges_file.empty()) {
-        run.rule = "model tier: every edge of the TLC state graph of models/C18_trigger.tla (source | Step(dt,c) | target | BFS-tree path) replayed on Actions::pending / ActionX::ready / ActionX::eval / State::add_run; the abstraction of the implementation state after the path must equal the source and after the action the target; all part (b) step oracles active during the replay";
+        run.rule = "model tier: every edge of the TLC state graph of models/C18_trigger.tla, Step(dt,c) and Redefine(k) edges alike (source | action | target | first definition + BFS-tree path) replayed on Actions::add / Actions::pending / ActionX::ready / ActionX::eval / State::add_run; the abstraction of the implementation state after the path must equal the source and after the action the target; all part (b) step oracles active during the replay";
         std::ifstream in(edges_file); std::string line, last;
         while (std::getline(in, line)) { if (line.empty()) continue; if (!run.mine()) continue; run.current("edge " + line); replay_edge(line); last = line; }
         if (!last.empty()) run.sample_str("edge " + last);
@@ -507,8 +561,8 @@ int main(int argc, char** argv) {
                 run_cond(n, full, los, true);
             } else if (c.rfind("trig ", 0) == 0) {
                 std::istringstream ss(c.substr(5)); Params p{}; std::string tok; ss >> p.mr >> p.mw >> p.so >> tok;
-                Sim s(p); auto cs = [&]() { return c; }; int dt; bool o;
-                while (ss >> tok) if (parse_ev(tok, dt, o)) { sim_step(s, dt, o, cs); run.evaluations++; }
+                Sim s(p); auto cs = [&]() { return c; };
+                while (ss >> tok) { int e = parse_ev(tok); if (e >= 0 && ev_enabled(s, e)) { apply_ev(s, e, cs); run.evaluations++; } }
             } else if (c.rfind("edge ", 0) == 0) replay_edge(c.substr(5));
             else run.violation("C18:harness:bad-replay", "cannot parse replay case [" + c + "]");
         } catch (const std::exception& e) { run.violation("C18:harness:bad-replay", std::string("replay threw: ") + e.what()); }
